@@ -6,4 +6,8 @@ P3 == [c \in {"c1","c2","c3"} |-> CASE c = "c1" -> <<[kind |-> "put", val |-> "v
                                    [] c = "c3" -> <<[kind |-> "get", val |-> "-"], [kind |-> "putxx", val |-> "v3"]>>]
 P2 == [c \in {"c1","c2"} |-> CASE c = "c1" -> <<[kind |-> "put", val |-> "v1"], [kind |-> "get", val |-> "-"], [kind |-> "del", val |-> "-"]>>
                                [] c = "c2" -> <<[kind |-> "putnx", val |-> "v2"], [kind |-> "get", val |-> "-"], [kind |-> "putxx", val |-> "v3"]>>]
+\* the shape of known finding D23: a Get that overlaps a conditional Put and a Delete, with read repair
+PRR == [c \in {"c1","c2","c3"} |-> CASE c = "c1" -> <<[kind |-> "put", val |-> "v0"], [kind |-> "del", val |-> "-"], [kind |-> "get", val |-> "-"]>>
+                                    [] c = "c2" -> <<[kind |-> "putxx", val |-> "x3"]>>
+                                    [] c = "c3" -> <<[kind |-> "get", val |-> "-"]>>]
 ====
